@@ -153,7 +153,7 @@ CHECKS = {
             "compare, min, max, sorted and the enumeration order of sets and map keys are compared with the model.",
             "Trusted: TLC, Val.tla. Order between sets/maps (rendered-text order) is outside the statement: drift.",
             "DESIGN.md 4 C07"),
-    "C08": (["Val.tla", "ValLaws.tla", "LexerOps.tla", "Val_Trace.tla"],
+    "C08": (["Val.tla", "ValLaws.tla", "ValText.tla", "LexerOps.tla", "Val_Trace.tla"],
             "TLA+ canonical rendering (Render) with order-independence and escape rules model-checked by TLC; rendered text of every "
             "value compared across construction orders, lexed by the real lexer against the predicted token shape, re-evaluated and "
             "re-rendered",
@@ -273,7 +273,11 @@ ADDENDA = {
            "whose keys repeat, and sets / maps changed between two loops over them.",
     "C05": " Families e5 (a clause value that is a variable, in a block run twice), e6 (an error crossing a call whose argument's "
            "_str_ fails) and contexts 4 / 5 (loop over an input, code handed to eval as text).",
-    "C08": " Round 2: numbers manufactured by natives (table Make, invariants MakerShape / MakerLaws) are judged by their own type().",
+    "C08": " Round 2: numbers manufactured by natives (table Make, invariants MakerShape / MakerLaws) are judged by their own type(). "
+           "Round 3: ValText.tla - pattern payloads around `/` and the backslash with the scanner's pattern state (PatRoundTrip, "
+           "PatEarlyEnd), and histories of an outer container and an inner object driven through every mutator (TextFollowsValue); "
+           "eight rendering observers (string, '' + v, s('{v}'), join, print ...) must agree with the value's text (RenderObserverFree); "
+           "known findings are matched by key AND symptom.",
     "C10": " Round 2: caller-supplied environments (fresh / kept / child of the session; CallerEnvDetached, SessionsIsolated; "
            "Session_pinnedenv.cfg must yield TLC's counterexample).",
     "C11": " Round 2: the empty and the repeated-source import list, spellings of bundled module names (Modules_spell.cfg), "
